@@ -301,6 +301,54 @@ theorem mem_eq [BEq α] (ident : α → Nat) (t : Tup α) (hd : t.Distinct ident
     simp only [hl, List.getElem_cons_zero, List.drop_zero, List.head?_cons] at this ⊢
     exact this
 
+/-- the scan of `Tuple_Iter_Next` finds a position inside a duplicate-free prefix even when pointers repeat behind it -/
+theorem findIdx_ident_prefix (ident : α → Nat) (l : List α) (p : Nat) (hnd : ((l.take (p + 1)).map ident).Nodup)
+    (k : Nat) (hk : k ≤ p) (hp : p < l.length) :
+    l.findIdx? (fun y => ident y == ident (l[k]'(by omega))) = some k := by
+  have hkl : k < (l.take (p + 1)).length := by simp; omega
+  have e : (l.take (p + 1))[k] = l[k]'(by omega) := by simp
+  have h1 := findIdx_ident ident (l.take (p + 1)) hnd k hkl
+  rw [e] at h1
+  generalize l[k]'(by omega) = c at h1 ⊢
+  have := List.findIdx?_append (xs := l.take (p + 1)) (ys := l.drop (p + 1)) (p := fun y => ident y == ident c)
+  rw [List.take_append_drop, h1] at this
+  rw [this]; rfl
+
+/-- **`mem` before the cycle.**  Even in a Tuple that holds a pointer twice (F13), `mem` answers `true` when an element
+    equal to the argument is met while the pointers seen so far are still distinct: if `items[p] == x` and the first
+    `p+1` pointers are pairwise distinct, `Tuple_Mem` returns `true` within `p+1` steps. -/
+theorem mem_dup_true_prefix [BEq α] (ident : α → Nat) (t : Tup α) (x : α) (p : Nat) (hp : p < t.items.length)
+    (hx : (t.items[p] == x) = true) (hnd : ((t.items.take (p + 1)).map ident).Nodup) (fuel : Nat) (hf : p + 1 ≤ fuel) :
+    t.mem ident x fuel = some true := by
+  have hloop : ∀ (fuel k : Nat) (hk : k ≤ p), p - k < fuel →
+      memLoop ident t x fuel (some (t.items[k]'(by omega))) = some true := by
+    intro fuel
+    induction fuel with
+    | zero => intro k _ hf; omega
+    | succ fuel ih =>
+      intro k hk hf
+      simp only [memLoop]
+      by_cases hxk : (t.items[k]'(by omega) == x) = true
+      · rw [if_pos hxk]
+      · rw [if_neg hxk]
+        have hkp : k < p := by
+          rcases Nat.lt_or_ge k p with h | h
+          · exact h
+          · have : k = p := by omega
+            subst this; exact absurd hx hxk
+        have hnext : t.iterNext ident (t.items[k]'(by omega)) = some (t.items[k + 1]'(by omega)) := by
+          unfold iterNext
+          rw [findIdx_ident_prefix ident t.items p hnd k hk hp]
+          simp only
+          exact List.getElem?_eq_getElem (by omega)
+        rw [hnext]
+        exact ih (k + 1) (by omega) (by omega)
+  unfold mem iterInit
+  have h0 : t.items.head? = some (t.items[0]'(by omega)) := by
+    rw [List.head?_eq_getElem?]; exact List.getElem?_eq_getElem (by omega)
+  rw [h0]
+  exact hloop fuel 0 (by omega) (by omega)
+
 /-- F13: a Tuple holding the same pointer twice — `foreach` never reaches `Terminal` -/
 theorem iterFwd_dup_diverges (ident : α → Nat) (x : α) : ∀ fuel, (⟨[x, x]⟩ : Tup α).iterFwd ident fuel = none := by
   intro fuel
